@@ -62,13 +62,18 @@ def split_target(target):
     return t, None
 
 
+def l1(x):
+    """str -> the bytes it stands for on the wire (header text is handled as latin-1 throughout: one char = one byte)"""
+    return x.encode("latin-1") if isinstance(x, str) else x
+
+
 def coq_wire(headers):
-    """[(name, value)] (str or bytes) -> Coq list (bytes * bytes)"""
-    return clist(["(%s, %s)" % (cb(k), cb(v)) for k, v in headers], "(bytes * bytes)")
+    """[(name, value)] (latin-1 str or bytes) -> Coq list (bytes * bytes)"""
+    return clist(["(%s, %s)" % (cb(l1(k)), cb(l1(v))) for k, v in headers], "(bytes * bytes)")
 
 
 def coq_opt(x):
-    return "(@None bytes)" if x is None else "(Some %s)" % cb(x)
+    return "(@None bytes)" if x is None else "(Some %s)" % cb(l1(x))
 
 
 def model_headers(parsed):
